@@ -109,3 +109,37 @@ pub fn precisions(thorough: bool) -> Vec<Option<usize>> {
         vec![None, Some(0), Some(1), Some(2), Some(6), Some(18), Some(20)]
     }
 }
+
+/// Specifications far beyond the grid: precisions longer than any f64 expansion (1074 fractional digits), widths
+/// longer than any rendering; (flag index, width, precision).  Used by C15 (text judged) and C18 (totality).
+pub fn long_specs(thorough: bool) -> Vec<(usize, Option<usize>, Option<usize>)> {
+    let mut v = vec![
+        (0, None, Some(30)),
+        (0, None, Some(340)),
+        (17, Some(600), Some(400)),
+        (2, Some(520), Some(64)),
+        (0, Some(700), None),
+        (0, None, Some(1100)),
+    ];
+    if thorough {
+        v.extend([
+            (0, None, Some(21)),
+            (0, None, Some(100)),
+            (0, None, Some(200)),
+            (0, None, Some(255)),
+            (0, None, Some(256)),
+            (0, None, Some(511)),
+            (0, None, Some(512)),
+            (0, None, Some(600)),
+            (0, None, Some(1074)),
+            (0, None, Some(1075)),
+            (0, None, Some(2000)),
+            (5, Some(256), None),
+            (9, Some(1024), Some(0)),
+            (29, Some(4096), Some(700)),
+            (0, Some(65535), None),
+            (0, None, Some(65535)),
+        ]);
+    }
+    v
+}
